@@ -1,0 +1,56 @@
+//go:build verif
+
+package proxy
+
+// Verification hook for property C20 (Velocity modern forwarding). Add-only, no behaviour
+// change: it delivers backend login packets to the real backendLoginSessionHandler of a
+// minimal serverConnection (see verif_hooks_c19.go) whose backend is a recording connection.
+
+import (
+	"context"
+	"net"
+
+	"go.minekube.com/common/minecraft/component"
+	"go.minekube.com/gate/pkg/edition/java/proto/packet"
+	"go.minekube.com/gate/pkg/gate/proto"
+)
+
+// VerifC20Result is what the backend side of the proxy did in response.
+type VerifC20Result struct {
+	Responses     []*packet.LoginPluginResponse // written to the backend, in order
+	BackendClosed bool                          // the proxy dropped the backend connection
+	HasResult     bool                          // the connection request was completed
+	ResultStatus  ConnectionStatus
+	ResultReason  component.Component
+	ResultErr     error
+}
+
+// VerifC20BackendLogin feeds packets (as received from the backend in the login state) to the
+// real backendLoginSessionHandler.HandlePacket.
+func VerifC20BackendLogin(s VerifC19Spec, packets []proto.Packet) VerifC20Result {
+	backend := NewVerifC19Conn(s.Server.Addr(), &net.TCPAddr{}, s.Protocol, nil)
+	sc := verifC19BuildServerConn(s, backend)
+	ch := make(chan *connResponse, 1)
+	h := newBackendLoginSessionHandler(sc, &connRequestCxt{Context: context.Background(), response: ch}, sc.player.sessionHandlerDeps)
+	for _, p := range packets {
+		h.HandlePacket(&proto.PacketContext{Direction: proto.ClientBound, Protocol: s.Protocol, Packet: p})
+	}
+	var res VerifC20Result
+	for _, p := range backend.Packets {
+		if r, ok := p.(*packet.LoginPluginResponse); ok {
+			res.Responses = append(res.Responses, r)
+		}
+	}
+	res.BackendClosed = backend.CloseCount > 0
+	select {
+	case r := <-ch:
+		res.HasResult = true
+		res.ResultErr = r.error
+		if r.connectionResult != nil {
+			res.ResultStatus = r.connectionResult.status
+			res.ResultReason = r.connectionResult.reason
+		}
+	default:
+	}
+	return res
+}
